@@ -61,6 +61,19 @@ pub fn call<R>(f: impl FnOnce() -> R) -> Result<R, Panicked> {
     }
 }
 
+/// Signature feature for an unwind caught by `call`: the harness's own observation helpers raise two
+/// kinds of "panic" that are not panics of the crate (an iterator exceeding its step bound, the provided
+/// Iterator methods disagreeing with next()); they are named as what they are.
+pub fn panic_feature(p: &Panicked) -> String {
+    if p.msg.starts_with(crate::obs::ITER_INCONSISTENT_MSG) {
+        "iterator-methods-disagree-with-next".to_string()
+    } else if p.msg.starts_with(crate::obs::STEP_BOUND_MSG) {
+        "iterator-exceeds-step-bound".to_string()
+    } else {
+        format!("panic@{}", site_file(&p.site))
+    }
+}
+
 /// Source file of a panic site without the line number (stable under edits), e.g. `src/app.rs`.
 pub fn site_file(site: &str) -> String {
     let s = short_site(site);
